@@ -218,7 +218,9 @@ def check_case(case):
 
 def rho_grid(k):
     lo, hi = 0.05, 0.995
-    return [round(lo + (hi - lo) * (i / (k - 1)) ** 0.5, 6) for i in range(k)]
+    g = [round(lo + (hi - lo) * (i / (k - 1)) ** 0.5, 6) for i in range(k)]
+    # rho_max close to 1: consecutive grid values rho_max^(2N/(2i+1)) come very close to each other
+    return g + [0.996, 0.9965, 0.997, 0.998]
 
 
 def stub_cases(tier):
